@@ -34,13 +34,44 @@ static int set_perm(const char* s) {
   return n;
 }
 
+/* n:<k>:<c0,..,cn>:<lo>:<hi>  the algebraic number a:<c0,..,cn>:<lo>:<hi>, whose defining polynomial is then replaced
+ * by k*f (k a non-zero integer: negative leading coefficient and/or not primitive) with the sign caches adjusted -
+ * a representation that lp_algebraic_number_construct itself refuses by assertion but that denotes the same number */
+static int parse_scaled_alg(lp_value_t* v, const char* tok) {
+  const char* e;
+  long k = strtol(tok + 2, (char**)&e, 10);
+  if (k == 0 || *e != ':') return 0;
+  lp_upolynomial_t* f = vio_upoly(e + 1, &e);
+  lp_dyadic_rational_t lo, hi; vio_dyadic(&lo, e + 1, &e); vio_dyadic(&hi, e + 1, &e);
+  lp_dyadic_interval_t I; lp_dyadic_interval_construct(&I, &lo, 1, &hi, 1);
+  lp_algebraic_number_t a; lp_algebraic_number_construct(&a, f, &I); /* takes ownership of f */
+  if (a.f) {
+    size_t deg = lp_upolynomial_degree(a.f);
+    lp_integer_t* cs = malloc((deg + 1) * sizeof(lp_integer_t));
+    for (size_t i = 0; i <= deg; ++i) lp_integer_construct(&cs[i]);
+    lp_upolynomial_unpack(a.f, cs);
+    for (size_t i = 0; i <= deg; ++i) mpz_mul_si(&cs[i], &cs[i], k);
+    lp_upolynomial_t* g = lp_upolynomial_construct(lp_Z, deg, cs);
+    for (size_t i = 0; i <= deg; ++i) lp_integer_destruct(&cs[i]);
+    free(cs);
+    lp_upolynomial_delete(a.f);
+    a.f = g;
+    if (k < 0) { a.sgn_at_a = -a.sgn_at_a; a.sgn_at_b = -a.sgn_at_b; }
+  }
+  lp_value_construct(v, LP_VALUE_ALGEBRAIC, &a);
+  lp_algebraic_number_destruct(&a); lp_dyadic_interval_destruct(&I);
+  lp_dyadic_rational_destruct(&lo); lp_dyadic_rational_destruct(&hi);
+  return 1;
+}
+
 /* builds the assignment from tokens vtok[base..base+n-1]; returns 0 when a token cannot be built */
 static int set_assignment(lp_assignment_t* m, int base, int n) {
   for (int i = 0; i < n; ++i) {
     if (base + i >= vntok) return 0;
     if (strcmp(vtok[base + i], "none") == 0) continue;
     lp_value_t v;
-    if (!vio_parse(&v, vtok[base + i])) return 0;
+    if (vtok[base + i][0] == 'n') { if (!parse_scaled_alg(&v, vtok[base + i])) return 0; }
+    else if (!vio_parse(&v, vtok[base + i])) return 0;
     lp_assignment_set_value(m, pio_x[i], &v);
     lp_value_destruct(&v);
   }
